@@ -1,3 +1,43 @@
 """native oracles for C01 replays (shared implementations)"""
 from .native_common import Skip
 from .native_funcs import NATIVE, SEARCH
+
+
+def parseval(inp):
+    """complex data: mean of the NFFT periodogram values = sum |x w|^2 / N, for named windows and several sizes"""
+    import numpy as np
+    import spectrum
+    from .native_common import close
+    rng = np.random.RandomState(3)
+    for (N, n, win) in ((int(inp.get("N", 8)), max(int(inp.get("NFFT", 16)), int(inp.get("N", 8))), "hamming"), (12, 12, "hann"), (9, 21, "blackman"), (16, 64, "rectangular")):
+        x = rng.randn(N) + 1j * rng.randn(N)
+        w = np.asarray(spectrum.create_window(N, win))
+        psd = np.asarray(spectrum.speriodogram(x, NFFT=n, detrend=False, sampling=1.0, scale_by_freq=False, window=win))
+        if psd.shape != (n,) or not close(np.mean(psd), np.sum(np.abs(x * w) ** 2) / N, 1e-9):
+            return False, "Parseval fails for N=%d NFFT=%d window=%s: mean(psd)=%r, sum|xw|^2/N=%r" % (N, n, win, float(np.mean(psd)), float(np.sum(np.abs(x * w) ** 2) / N))
+    return True, "Parseval holds"
+
+
+def wiener_khinchin(inp):
+    """rectangular window, lag N-1, biased, NFFT >= 2N-1: correlogram = |DFT_NFFT(x)|^2 / N"""
+    import numpy as np
+    import spectrum
+    from .native_common import close
+    rng = np.random.RandomState(5)
+    cx = bool(inp.get("complex"))
+    N0 = int(inp.get("N", 6))
+    for (N, n) in ((N0, max(int(inp.get("NFFT", 2 * N0)), 2 * N0 - 1)), (6, 11), (7, 16), (5, 21)):
+        x = rng.randn(N) + (1j * rng.randn(N) if cx else 0)
+        want = np.abs(np.fft.fft(x, n)) ** 2 / N
+        for method in ("xcorr", "CORRELATION"):
+            got = np.asarray(spectrum.CORRELOGRAMPSD(x, None, lag=N - 1, window="rectangular", norm="biased", NFFT=n, correlation_method=method))
+            if got.shape != want.shape or not close(got, want, 1e-9):
+                return False, "correlogram (%s) != periodogram for N=%d NFFT=%d %s data: max|diff| %.3g" % (
+                    method, N, n, "complex" if cx else "real", float(np.max(np.abs(got - want))) if got.shape == want.shape else -1)
+    return True, "correlogram reproduces the periodogram"
+
+
+NATIVE = dict(NATIVE)
+SEARCH = dict(SEARCH)
+NATIVE.update({"parseval": parseval, "wiener_khinchin": wiener_khinchin})
+SEARCH.update({"parseval": (lambda rng, h: dict(h)), "wiener_khinchin": (lambda rng, h: dict(h))})
